@@ -10,7 +10,7 @@
   written for.
 -/
 import HotXL.Model.Basic
-import HotXL.Generated.Tables
+import HotXL.Generated.Lexer
 
 namespace HotXL.Lexer
 
